@@ -25,6 +25,14 @@ Theorem C10_rule_paths : forall vs,
 Proof. intros vs. split; [apply rule_fields|apply dotted_path]. Qed.
 Print Assumptions C10_rule_paths.
 
+(* several stages fail at once: the answer is that of the first failing stage in the order required
+   headers < body < path/query values < rules (a header failure therefore never touches the body) *)
+Theorem C10_failure_order : forall l st src,
+  first_failure l = Some (st, src) ->
+  In (st, src) l /\ forall st' src', In (st', src') l -> stage_rank st <= stage_rank st'.
+Proof. exact first_failure_minimal. Qed.
+Print Assumptions C10_failure_order.
+
 (* the hook contract (headers, status, returned message, nil = default, direct write = complete) is met
    exactly whenever the hook does not combine WriteHeader with a server-written body *)
 Theorem C10_hook_override : forall p h ct,
@@ -67,6 +75,29 @@ Theorem C10_client_go_message : forall ct r m,
 Proof. exact client_error. Qed.
 Print Assumptions C10_client_go_message.
 
+(* whole calls, over the EFFECTIVE content type (per-call override if set, else the client-level value,
+   else application/json): it is the request's Content-Type, so the server answers in its format, and the
+   client decodes the error body with it; whenever both sides read it the same way a 400 with violations
+   is a ValidationError and any other Error body keeps its message *)
+Theorem C10_client_go_call : forall src h client_level per_call vs,
+  let ct := effective_ct client_level per_call in
+  client_enc ct = server_enc ct ->
+  r_status (serve_error src h ct) = 400%Z -> r_body (serve_error src h ct) = BMsg (PValidation vs) ->
+  go_call_outcome src h client_level per_call = CRValidation vs.
+Proof. exact call_validation. Qed.
+Print Assumptions C10_client_go_call.
+Theorem C10_client_go_call_message : forall src h client_level per_call m,
+  let ct := effective_ct client_level per_call in
+  client_enc ct = server_enc ct ->
+  (400 < r_status (serve_error src h ct))%Z -> r_body (serve_error src h ct) = BMsg (PError m) ->
+  go_call_outcome src h client_level per_call = CRError (etext_string m).
+Proof. exact call_error. Qed.
+Print Assumptions C10_client_go_call_message.
+Theorem C10_effective_content_type : forall cl c0 c,
+  effective_ct cl (Some (c0 :: c)) = c0 :: c /\ effective_ct cl None = client_default cl /\ effective_ct cl (Some []) = client_default cl.
+Proof. intros. repeat split. Qed.
+Print Assumptions C10_effective_content_type.
+
 (* TS server catch block and TS client handleError *)
 Theorem C10_server_ts : forall e,
   ts_status (ts_server_error e None) = match e with TValidation _ => 400%Z | _ => 500%Z end.
@@ -104,6 +135,20 @@ Example C10_nonvacuous :
     CRValidation [(s "a.b", s "bad"); (s "c", [])] /\
   client_defects json_ct (serve_error (SHandler (HCustom nf)) None json_ct) = [] /\
   client_go json_ct (serve_error (SHandler (HCustom nf)) None json_ct) = CROther 500.
+Proof. vm_compute. repeat split; reflexivity. Qed.
+Example C10_failure_order_nonvacuous :
+  first_failure [(StRule, SRule [(Some [s "name"], s "r")]); (StUrl, SViolations [(s "limit", s "<prose>")]);
+                 (StBody, SViolations [(s "body", s "<prose>")])] = Some (StBody, SViolations [(s "body", s "<prose>")]) /\
+  first_failure [(StUrl, SViolations [(s "limit", s "<prose>")]); (StHeader, SViolations [(s "X-Upd", s "m")]);
+                 (StBody, SViolations [(s "body", s "<prose>")])] = Some (StHeader, SViolations [(s "X-Upd", s "m")]).
+Proof. split; reflexivity. Qed.
+
+(* a JSON client whose call is overridden to binary (and the reverse): the failing call still yields the typed errors *)
+Example C10_call_override_nonvacuous :
+  go_call_outcome (SHandler (HValidation [(s "a", s "b")])) None (Some json_ct) (Some proto_ct) = CRValidation [(s "a", s "b")] /\
+  go_call_outcome (SViolations [(s "X-Token", s "m")]) None (Some proto_ct) (Some json_ct) = CRValidation [(s "X-Token", s "m")] /\
+  go_call_outcome (SHandler (HPlain (s "backend down"))) None None (Some (s "application/octet-stream")) = CRError (s "backend down") /\
+  r_enc (serve_error (SHandler (HPlain (s "backend down"))) None (effective_ct (Some json_ct) (Some proto_ct))) = EBin.
 Proof. vm_compute. repeat split; reflexivity. Qed.
 
 (* refutations *)
@@ -149,12 +194,18 @@ Example C10_refuted_client_empty_400 :
   let r := write_error (PError (lit [])) (Some (hk None (Some 400%Z) None false)) proto_ct in
   client_go proto_ct r = CRValidation [] /\ client_defects proto_ct r = [DClientEmpty400IsValidation].
 Proof. vm_compute. split; reflexivity. Qed.
-(* application/octet-stream: binary for the server, JSON for the client *)
+(* a binary content type WITH parameters: binary for the server (filterFlags), JSON for the client *)
 Example C10_refuted_client_encoding_mismatch :
+  let ct := s "application/x-protobuf; charset=utf-8" in
+  let r := serve_error (SHandler (HValidation [(s "a", s "b")])) None ct in
+  r_enc r = EBin /\ client_go ct r = CROther 400 /\ client_defects ct r = [DClientEncodingMismatch].
+Proof. vm_compute. repeat split; reflexivity. Qed.
+(* application/octet-stream (repaired by dea0491): both sides binary, a 400 is a ValidationError again *)
+Example C10_octet_stream_agrees :
   let ct := s "application/octet-stream" in
   let r := serve_error (SHandler (HValidation [(s "a", s "b")])) None ct in
-  client_go ct r = CROther 400 /\ client_defects ct r = [DClientEncodingMismatch].
-Proof. vm_compute. split; reflexivity. Qed.
+  r_enc r = EBin /\ client_enc ct = EBin /\ client_go ct r = CRValidation [(s "a", s "b")] /\ client_defects ct r = [].
+Proof. vm_compute. repeat split; reflexivity. Qed.
 (* TS server: a malformed body is answered 500 (the Go server answers 400 with a violation for "body") *)
 Example C10_refuted_ts_malformed_body_500 :
   ts_server_defects TBadBody = [s "ts-malformed-body-500"] /\ ts_status (ts_server_error TBadBody None) = 500%Z.
